@@ -497,7 +497,7 @@ def _iadd_post(st, interp, C, res):
     frame_unchanged(st, C["other"], C["snap_other"], "other")
 
 
-U_IADD = Unit("Formula.__iadd__", F + "__iadd__", _binop_inputs, _iadd_post, contracts=CALLEE,
+U_IADD = Unit("Formula.__iadd__", F + "__iadd__", _binop_inputs, _iadd_post, contracts=CALLEE, writes={"structure"},
               replay={"module": "c02", "task": "replay"})
 
 
@@ -695,7 +695,7 @@ def _ndset_post(st, interp, C, res):
 
 
 U_NATDENS_SET = Unit("Formula.natural_density[set]", F + "natural_density@setter", _ndset_inputs, _ndset_post,
-                     contracts=CALLEE_RATIO, replay={"module": "c12", "task": "replay"})
+                     contracts=CALLEE_RATIO, writes={"density"}, replay={"module": "c12", "task": "replay"})
 
 
 # ---- Formula.__init__ : density precedence and the single-atom default
@@ -752,7 +752,7 @@ def _init_post(st, interp, C, res):
 
 from pyvc import shims  # noqa
 U_INIT = [Unit("Formula.__init__[%s]" % m, F + "__init__", _init_inputs(m), _init_post,
-               contracts=CALLEE_RATIO, inline={F + "natural_density@setter"},
+               contracts=CALLEE_RATIO, inline={F + "natural_density@setter"}, writes={"structure", "name", "density"},
                replay={"module": "c12", "task": "replay"})
           for m in ("density", "natural_density", "default")]
 
